@@ -82,6 +82,11 @@ type Harness struct {
 	// Key classifies a violation (minimal failing path + observations) into a
 	// stable finding key. nil => default "<lastop-name>".
 	Key func(path []Op, got, want string) string
+	// Benign (optional) names finding keys whose mismatch is confined to the returned observation
+	// (real and model STATE stay in sync). When such a key is also a listed known finding the
+	// explorer records it and keeps extending the path instead of pruning it, so a known defect in
+	// a return value does not hide the space behind it.
+	Benign func(key string) bool
 }
 
 // Violation is a property violation found on the real code.
@@ -99,32 +104,34 @@ type Violation struct {
 // Check: one run of one property's check. Collects stats, violations, writes evidence.
 
 type Check struct {
-	ID      string
-	Tier    string
-	Seed    int64
-	Level   string // model_checking | exploration | fault_enumeration
-	Rule    string
+	ID       string
+	Tier     string
+	Seed     int64
+	Level    string // model_checking | exploration | fault_enumeration
+	Rule     string
 	VerifDir string
-	start   time.Time
+	start    time.Time
 
-	mu          sync.Mutex
-	viol        map[string]*Violation
-	samples     []interface{}
-	sampleEvery int64
-	assumptions []string
-	bounds      map[string]interface{}
-	extra       map[string]interface{}
-	distinct    map[string]struct{}
-	distinctCap int
+	mu               sync.Mutex
+	viol             map[string]*Violation
+	samples          []interface{}
+	sampleEvery      int64
+	assumptions      []string
+	bounds           map[string]interface{}
+	extra            map[string]interface{}
+	distinct         map[string]struct{}
+	distinctCap      int
 	distinctOverflow bool
-	outcomes    map[string]struct{}
+	outcomes         map[string]struct{}
 
-	Evaluations int64
-	States      int64
-	Transitions int64
+	Evaluations     int64
+	States          int64
+	Transitions     int64
 	TracesValidated int64
 	nonExhaustive   atomic.Bool
 	deadline        time.Time
+	knownOnce       sync.Once
+	known           map[string]knownFinding
 }
 
 // NewCheck reads VERIF_TIER / VERIF_SEED / VERIF_DIR / VERIF_DEADLINE_S from the environment.
@@ -177,6 +184,18 @@ func (c *Check) Expired() bool {
 	return false
 }
 
+// WithBudget runs f under a temporary deadline of at most sec seconds (never later than the global
+// deadline); hitting it marks the run non-exhaustive like the global deadline does.
+func (c *Check) WithBudget(sec float64, f func()) {
+	old := c.deadline
+	d := time.Now().Add(time.Duration(sec * float64(time.Second)))
+	if old.IsZero() || d.Before(old) {
+		c.deadline = d
+	}
+	f()
+	c.deadline = old
+}
+
 func (c *Check) NotExhaustive(why string) {
 	c.nonExhaustive.Store(true)
 	c.mu.Lock()
@@ -184,13 +203,17 @@ func (c *Check) NotExhaustive(why string) {
 	c.mu.Unlock()
 }
 
-func (c *Check) Assume(s string)                    { c.mu.Lock(); c.assumptions = append(c.assumptions, s); c.mu.Unlock() }
-func (c *Check) Bound(k string, v interface{})      { c.mu.Lock(); c.bounds[k] = v; c.mu.Unlock() }
-func (c *Check) Extra(k string, v interface{})      { c.mu.Lock(); c.extra[k] = v; c.mu.Unlock() }
-func (c *Check) AddEval(n int64)                    { atomic.AddInt64(&c.Evaluations, n) }
-func (c *Check) AddStates(n int64)                  { atomic.AddInt64(&c.States, n) }
-func (c *Check) AddTransitions(n int64)             { atomic.AddInt64(&c.Transitions, n) }
-func (c *Check) AddValidated(n int64)               { atomic.AddInt64(&c.TracesValidated, n) }
+func (c *Check) Assume(s string) {
+	c.mu.Lock()
+	c.assumptions = append(c.assumptions, s)
+	c.mu.Unlock()
+}
+func (c *Check) Bound(k string, v interface{}) { c.mu.Lock(); c.bounds[k] = v; c.mu.Unlock() }
+func (c *Check) Extra(k string, v interface{}) { c.mu.Lock(); c.extra[k] = v; c.mu.Unlock() }
+func (c *Check) AddEval(n int64)               { atomic.AddInt64(&c.Evaluations, n) }
+func (c *Check) AddStates(n int64)             { atomic.AddInt64(&c.States, n) }
+func (c *Check) AddTransitions(n int64)        { atomic.AddInt64(&c.Transitions, n) }
+func (c *Check) AddValidated(n int64)          { atomic.AddInt64(&c.TracesValidated, n) }
 
 // Distinct records a canonical non-trivial case/end-state key (counted, capped in memory by hashing).
 func (c *Check) Distinct(key string) {
@@ -276,7 +299,12 @@ func trunc(s string) string {
 func (c *Check) ViolationCount() int { c.mu.Lock(); defer c.mu.Unlock(); return len(c.viol) }
 
 // HasViolation reports whether key was recorded.
-func (c *Check) HasViolation(key string) bool { c.mu.Lock(); defer c.mu.Unlock(); _, ok := c.viol[key]; return ok }
+func (c *Check) HasViolation(key string) bool {
+	c.mu.Lock()
+	defer c.mu.Unlock()
+	_, ok := c.viol[key]
+	return ok
+}
 
 type knownFinding struct {
 	Property    string `json:"property"`
@@ -553,6 +581,9 @@ func (c *Check) RunDFS(h *Harness, depth int) {
 						got, want = inst.Apply(A[idx[l]])
 						atomic.AddInt64(&trans, 1)
 						if got != want {
+							if c.tolerated(h, path, got, want) {
+								continue
+							}
 							failAt = l + 1
 							return
 						}
@@ -610,6 +641,33 @@ func (c *Check) RunDFS(h *Harness, depth int) {
 	c.Extra("phaseA_sequences", seqs)
 }
 
+// tolerated: the mismatch is a listed known finding that the harness declares benign (state in
+// sync); it is recorded (so the KNOWN-FINDING line is printed) and exploration continues.
+func (c *Check) tolerated(h *Harness, path []Op, got, want string) bool {
+	if h.Benign == nil {
+		return false
+	}
+	key := classify(h, path, got, want)
+	if !h.Benign(key) {
+		return false
+	}
+	c.knownOnce.Do(func() { c.known = c.loadKnown() })
+	if _, ok := c.known[key]; !ok {
+		return false
+	}
+	c.mu.Lock()
+	if v, ok := c.viol[key]; ok {
+		v.Count++
+		if len(path) < caseLen(v.Case) {
+			v.Case, v.Got, v.Want = append([]Op(nil), path...), trunc(got), trunc(want)
+		}
+	} else {
+		c.viol[key] = &Violation{Key: key, Case: append([]Op(nil), path...), Got: trunc(got), Want: trunc(want), Count: 1, Note: "benign known finding (tolerated, path extended)"}
+	}
+	c.mu.Unlock()
+	return true
+}
+
 func classify(h *Harness, p []Op, got, want string) string {
 	if h.Key != nil {
 		return h.Key(p, got, want)
@@ -654,7 +712,7 @@ func (c *Check) RunBFS(h *Harness, depth int, maxStates int) {
 				for _, i := range n.path {
 					path = append(path, A[i])
 					got, want = inst.Apply(A[i])
-					if got != want {
+					if got != want && !c.tolerated(h, path, got, want) {
 						// prefix was clean when first explored; divergence here is nondeterminism
 						failAt = len(path)
 						return
@@ -662,7 +720,7 @@ func (c *Check) RunBFS(h *Harness, depth int, maxStates int) {
 				}
 				path = append(path, A[ai])
 				got, want = inst.Apply(A[ai])
-				if got != want {
+				if got != want && !c.tolerated(h, path, got, want) {
 					failAt = len(path)
 				}
 			})
@@ -731,26 +789,33 @@ func (c *Check) RunBFS(h *Harness, depth int, maxStates int) {
 	c.Extra("phaseB_frontier_left", len(frontier))
 }
 
-// Replay re-executes a path n times and reports how many runs reproduced a mismatch at the last op.
-func Replay(h *Harness, path []Op, n int) (reproduced int, got, want string) {
-	for i := 0; i < n; i++ {
-		inst := h.New()
-		var g, w string
-		bad := false
-		pan := Guard(func() {
-			for _, op := range path {
-				g, w = inst.Apply(op)
-				if g != w {
-					bad = true
-					return
-				}
+// runPath executes path on a fresh instance; returns the 1-based index of the first non-tolerated
+// mismatch (0 = clean) and the observations there.
+func (c *Check) runPath(h *Harness, path []Op) (failAt int, got, want string) {
+	inst := h.New()
+	defer Guard(inst.Close)
+	done := 0
+	pan := Guard(func() {
+		for i, op := range path {
+			g, w := inst.Apply(op)
+			done = i + 1
+			if g != w && !c.tolerated(h, path[:i+1], g, w) {
+				failAt, got, want = i+1, g, w
+				return
 			}
-		})
-		if pan != "" {
-			bad, g, w = true, pan, "no panic"
 		}
-		Guard(inst.Close)
-		if bad {
+	})
+	if pan != "" {
+		return done + 1, pan, "no panic"
+	}
+	return
+}
+
+// Replay re-executes a path n times and reports how many runs reproduced a mismatch AT THE LAST OP.
+func (c *Check) Replay(h *Harness, path []Op, n int) (reproduced int, got, want string) {
+	for i := 0; i < n; i++ {
+		at, g, w := c.runPath(h, path)
+		if at >= len(path) && at > 0 {
 			reproduced++
 			got, want = g, w
 		}
@@ -758,8 +823,9 @@ func Replay(h *Harness, path []Op, n int) (reproduced int, got, want string) {
 	return
 }
 
-// ConfirmViolations replays every recorded path-violation 5x; ones that do not reproduce every time
-// are dropped and reported as flaky in evidence (never as violations).
+// ConfirmViolations minimises every recorded path-violation, replays it 5x and re-keys it from the
+// minimal path; ones that do not reproduce every time are dropped and reported as flaky in
+// evidence (never as violations).
 func (c *Check) ConfirmViolations(h *Harness) {
 	c.mu.Lock()
 	keys := make([]string, 0, len(c.viol))
@@ -767,23 +833,25 @@ func (c *Check) ConfirmViolations(h *Harness) {
 		keys = append(keys, k)
 	}
 	c.mu.Unlock()
+	sort.Strings(keys)
 	var flaky []string
 	for _, k := range keys {
 		c.mu.Lock()
 		v := c.viol[k]
 		c.mu.Unlock()
+		if v == nil {
+			continue
+		}
 		p, ok := v.Case.([]Op)
 		if !ok || v.Note != "" {
 			continue // not a path violation, or already confirmed by an earlier harness
 		}
-		// minimise: drop ops (other than the last) that are not needed
-		p = minimize(h, p)
-		n, got, want := Replay(h, p, 5)
+		p = c.minimize(h, p)
+		n, got, want := c.Replay(h, p, 5)
 		c.mu.Lock()
 		if n == 5 {
 			v.Case, v.Got, v.Want = p, trunc(got), trunc(want)
 			v.Note = "replayed 5/5"
-			// re-key from the MINIMAL path; merge with an existing entry of the same final key
 			nk := classify(h, p, got, want)
 			if nk != k {
 				delete(c.viol, k)
@@ -804,46 +872,30 @@ func (c *Check) ConfirmViolations(h *Harness) {
 		c.mu.Unlock()
 	}
 	if len(flaky) > 0 {
-		c.Extra("flaky_not_reported", flaky)
+		c.mu.Lock()
+		if old, ok := c.extra["flaky_not_reported"].([]string); ok {
+			flaky = append(old, flaky...)
+		}
+		c.extra["flaky_not_reported"] = flaky
+		c.mu.Unlock()
 	}
 }
 
-func minimize(h *Harness, p []Op) []Op {
+// minimize drops ops (other than the last) that are not needed for the failure at the last op.
+func (c *Check) minimize(h *Harness, p []Op) []Op {
 	changed := true
 	for changed && len(p) > 1 {
 		changed = false
 		for i := 0; i < len(p)-1; i++ {
 			q := append(append([]Op(nil), p[:i]...), p[i+1:]...)
-			if n, _, _ := Replay(h, q, 1); n == 1 {
-				// must fail at the LAST op of q to count as the same failure
-				if failsAtLast(h, q) {
-					p = q
-					changed = true
-					break
-				}
+			if at, _, _ := c.runPath(h, q); at == len(q) {
+				p = q
+				changed = true
+				break
 			}
 		}
 	}
 	return p
-}
-
-func failsAtLast(h *Harness, p []Op) bool {
-	inst := h.New()
-	defer Guard(inst.Close)
-	at := -1
-	pan := Guard(func() {
-		for i, op := range p {
-			g, w := inst.Apply(op)
-			if g != w {
-				at = i
-				return
-			}
-		}
-	})
-	if pan != "" {
-		return false
-	}
-	return at == len(p)-1
 }
 
 // ReplayFile loads a replay file's op list (for ./check --replay).
